@@ -254,7 +254,9 @@ def _digest(ck: Checker) -> None:
     for c, cals in ck.res.calls_in(fn):
         if any(k.name == "_merge" for k in cals):
             order = []
-            for a in c.args[:3]:
+            mgf = cals[0]
+            roles = [get_arg(c, mgf, pn, pos=i) for i, pn in enumerate(mgf.pos_params[:3])]
+            for a in [r_ for r_ in roles if r_ is not None]:
                 alts = " ".join(norm(z) for z in expand1(prog, fn, a, levels=2))
                 order.append("ancestor" if "ancestor" in alts else ("our" if "our_info" in alts or "our" in norm(a) else ("their" if "their" in alts else "?")))
             ck.require(order == ["ancestor", "our", "their"], "C19.digest", fn, c, "_merge(ancestor, ours, theirs) in that order", f"_merge is called with {order}", construct="_merge(...) / argument roles")
